@@ -70,7 +70,7 @@ are then instantiated with the proved bounds for add-only streams (`Props.C01b`/
    `ε₄` as hypotheses on the computed `central_moment(3)`, `central_moment(4)` of that stream. The full
    statements (explicit `δ₃`, `ε₄` in `n, κ, u`) are not proved in this file. For the third order they are proved in
    `Props.C04d` (`sample_skewness_stream_forward_error`, with `δ₃ = 401·(n+10)·κ·u·V3/n`); for the fourth order
-   (`ε₄`) they are still open.
+   in `Props.C04e` (`sample_excess_kurtosis_stream_forward_error`, with `ε₄ = 181775·(n+10)·κ·u`).
 -/
 open Avg MSpec VarSpec SkewSpec KurtSpec SSE
 
